@@ -95,7 +95,9 @@ Definition dec_event (k a b : N) : event :=
   | 2 => CompleteResponder a
   | 3 => Recv a
   | 4 => Send
-  | _ => Tick (a * sec)
+  | 5 => Tick (a * sec)
+  | 6 => Forged a
+  | _ => Replay a
   end.
 Definition dec_step (l : list N) : event * obs :=
   match l with
@@ -131,7 +133,9 @@ Fixpoint check_cases (ks : list case) (idx : N) : list (N * N * N) :=
    6 data refused: index not honoured; 7 data refused: key older than 180 s;
    8 send under current; 9 send refused (no key / expired) ; 10 rekey after 120 s on send;
    11 rekey after 165 s on receive; 12 initiation suppressed by the 5 s spacing; 13 initiation sent;
-   14 ticks; 15 keys promoted with packets staged *)
+   14 ticks; 15 keys promoted with packets staged;
+   16 forged message under next's index; 17 under current/previous; 18 under an index not honoured;
+   19 replayed message *)
 Definition same_kp (o : option kp) (k : kp) : bool :=
   match o with Some x => id x =? id k | None => false end.
 
@@ -172,6 +176,16 @@ Definition classify (s : state) (e : event) : list nat :=
              end
       end
   | Tick _ => [14%nat]
+  | Forged sid =>
+      match assoc sid (sessions s) with
+      | None => []
+      | Some i =>
+          match lookup i (table s) with
+          | Some (Kp k) => if same_kp (next s) k then [16%nat] else [17%nat]
+          | _ => [18%nat]
+          end
+      end
+  | Replay _ => [19%nat]
   end.
 
 Fixpoint bump (l : list N) (i : nat) : list N :=
@@ -188,13 +202,13 @@ Fixpoint stats_case (s : state) (c : case) (st : list N) : list N :=
   end.
 
 Definition stats (ks : list case) : list N :=
-  fold_left (fun st k => stats_case init k st) ks (repeat 0 16).
+  fold_left (fun st k => stats_case init k st) ks (repeat 0 20).
 
 (* ---- exhaustive enumeration on the model ------------------------------------- *)
 (* The property's event kinds; a slot name is resolved against the model state. *)
 Inductive aev :=
 | ACI | ACR | ARecvPrev | ARecvCur | ARecvNext | ARecvRetired | ASend | ATick (secs : N)
-| AInitiate | ARespondStale.
+| AInitiate | ARespondStale | AForgeNext | AForgeCur.
 
 Definition sid_of (o : option kp) : list event :=
   match o with Some k => [Recv (id k)] | None => [] end.
@@ -219,6 +233,8 @@ Definition concretize (s : state) (a : aev) : list event :=
   | ATick d => [Tick (d * sec)]
   | AInitiate => [Initiate false]
   | ARespondStale => [Respond 1 r]
+  | AForgeNext => match next s with Some k => [Forged (id k)] | None => [] end
+  | AForgeCur => match cur s with Some k => [Forged (id k); Replay (id k)] | None => [] end
   end.
 
 (* run concrete events through model and specification; None = the specification
@@ -252,4 +268,4 @@ Fixpoint explore (alphabet : list aev) (depth : nat) (s : state) (t : sst) : opt
 Definition alphabet7 : list aev :=
   [ACI; ACR; ARecvPrev; ARecvCur; ARecvNext; ARecvRetired; ASend; ATick 61; ATick 121].
 Definition alphabet_full : list aev :=
-  alphabet7 ++ [ATick 4; ATick 45; AInitiate; ARespondStale].
+  alphabet7 ++ [ATick 4; ATick 45; AInitiate; ARespondStale; AForgeNext; AForgeCur].
